@@ -193,7 +193,13 @@ def decompress(filename, tmpdir=None, target=None):
     # try block that removes it again.
     try:
         if fmt == 'zip':
-            shutil.copyfileobj(compfile(filename, 'r').open(filebase, 'r'),
+            archive = compfile(filename, 'r')
+            # The member is normally named after the archive. If the archive
+            # was renamed (e.g. moved by FileSet.move), take its only member:
+            members = archive.namelist()
+            if filebase not in members and len(members) == 1:
+                filebase = members[0]
+            shutil.copyfileobj(archive.open(filebase, 'r'),
                                tmpfile,
                                chunksize)
         else:
